@@ -149,12 +149,16 @@ func randomCase(rng *rand.Rand, prop string) *Case {
 		ndev = 4 + rng.Intn(6)
 	}
 	dev := map[int]string{}
+	minOdd := 3 // no OK-class reply with custom text at an EHLO position (the scripted server would take it as the capability list)
+	if c.TLS == 'O' || c.TLS == 'M' {
+		minOdd = 4 // position 3 is the EHLO inside TLS
+	}
 	for i := 0; i < ndev; i++ {
 		p := rng.Intn(n)
 		switch {
 		case prop == "C20" && rng.Intn(3) != 0:
 			dev[p] = c20Decision(rng, 400+rng.Intn(200), rng.Intn(len(c20Kinds)))
-		case p >= 3 && rng.Intn(4) == 0:
+		case p >= minOdd && rng.Intn(4) == 0:
 			dev[p] = oddDev[rng.Intn(len(oddDev))]
 		default:
 			dev[p] = negDev[rng.Intn(len(negDev))]
